@@ -56,6 +56,30 @@ def lattice(ctx):
                          'timeout': P.NOT_SET, 'paging': 5, 'pv': 4, 'prepared': prep, 'meta_keyspace': 11 if pbits[1] else None,
                          'bind_via_session': via, 'lattice': True}
                     cases.append(c)
+    # where the profile's / session's own consistency level comes from: chosen by the user or not, ordinary or DBaaS cluster,
+    # profile registered at connect() or added later
+    for mode in ('Legacy', 'Profiles'):
+        for kind in ('Simple', 'Bound', 'Batch'):
+            for scl in (0, 1):
+                for dbaas in (False, True):
+                    for pch in (False, True):
+                        for sch in (False, True):
+                            for later in (False, True):
+                                cases.append({'mode': mode, 'kind': kind, 'stmt': stmt_from_bits((scl, 0, 0, 0, 0, 0)), 'profile': dict(PROFILE, cl=4),
+                                              'session': dict(SESSION, cl=2), 'timeout': P.NOT_SET, 'paging': None, 'pv': 4,
+                                              'prepared': dict(UNSET_STMT), 'meta_keyspace': None, 'bind_via_session': False, 'lattice': True,
+                                              'dbaas': dbaas, 'profile_cl_chosen': pch, 'session_cl_chosen': sch,
+                                              'added_later': later and mode == 'Profiles'})
+    # is the speculative-execution policy really used?  idempotent or not x timeout argument unset / None / below / above the delay
+    for mode in ('Legacy', 'Profiles'):
+        for kind in ('Simple', 'Bound', 'Batch'):
+            for idem in (0, 1):
+                for tmo in (P.NOT_SET, None, 0.01, 7.0):
+                    for ptmo in (30.0, None):
+                        st = stmt_from_bits((0, 0, 0, 0, 0, idem))
+                        cases.append({'mode': mode, 'kind': kind, 'stmt': st, 'profile': dict(PROFILE, timeout=ptmo), 'session': dict(SESSION, timeout=ptmo),
+                                      'timeout': tmo, 'paging': None, 'pv': 4, 'prepared': stmt_from_bits((0, 0, 0, 0, 0, idem)),
+                                      'meta_keyspace': None, 'bind_via_session': False, 'lattice': True})
     return cases, pvs
 
 
@@ -79,8 +103,41 @@ def random_cases(ctx, n):
                     'timeout': rng.choice((P.NOT_SET, P.NOT_SET, None, 0.25, 7.0)), 'paging': rng.choice((None, 1, 12)),
                     'pv': rng.choice((1, 2, 3, 4, 5, 6, 65, 66)), 'prepared': rs(), 'meta_keyspace': rng.choice((None, 11)),
                     'bind_via_session': via, 'profile_ref': rng.choice(('default', 'name', 'object')),
-                    'config_mode_value': rng.choice((0, 2)), 'lattice': False})
+                    'config_mode_value': rng.choice((0, 2)), 'lattice': False, 'dbaas': rng.random() < 0.3,
+                    'profile_cl_chosen': rng.random() < 0.7, 'session_cl_chosen': rng.random() < 0.7, 'added_later': rng.random() < 0.3,
+                    'spec_delay': rng.choice((0.05, 0.05, 0.4, 5.0))})
     return out
+
+
+def histories(ctx):
+    """configuration histories on a real Cluster: constructor arguments x every sequence of <= 2 (thorough: 3) later calls"""
+    ops = P.LEGACY_OPS + ('add_execution_profile',)
+    out = []
+    for ctor in ((), ('lbp',), ('retry',), ('profiles',), ('lbp', 'retry'), ('lbp', 'profiles'), ('retry', 'profiles')):
+        for n in range(0, (2 if ctx.tier == 'quick' else 3) + 1):
+            for seq in itertools.product(ops, repeat=n):
+                out.append({'ctor': list(ctor), 'ops': list(seq)})
+    return out
+
+
+def history_oracle(ctx, hist, res):
+    """a legacy setting the driver ACCEPTED is the one in effect for a statement without its own; with profiles the profile's"""
+    if res['ctor'] != 'ok' or res['fields'] is None:
+        return
+    f = res['fields']
+    used_profiles = 'profiles' in hist['ctor']
+    for field, val in sorted(res['assigned'].items()):
+        if f[field] != val:
+            ctx.violation('%s.legacy-setting-accepted-but-not-in-effect' % field,
+                          '%s assigned through the legacy API (accepted) = %r, in effect %r; Cluster(%s) then %s; config mode %s' % (
+                              field, val, f[field], ', '.join(hist['ctor']), ' ; '.join(hist['ops']) or '-', res['mode']),
+                          case={'history': hist}, expected=val, actual=f[field], theorem='C46_mode_follows_configuration', kind='history')
+    if used_profiles and not res['assigned']:
+        exp = {'cl': 4, 'timeout': 33.0, 'retry': 402, 'rowf': 403, 'lbp': 401}
+        for k, v in exp.items():
+            if f[k] != v:
+                ctx.violation('%s.profile-setting-not-in-effect' % k, '%s of the default profile = %r, in effect %r (history %r)' % (k, v, f[k], hist),
+                              case={'history': hist}, expected=v, actual=f[k], theorem='C46_else_profile_or_session', kind='history')
 
 
 def effective_stmt(case):
@@ -101,7 +158,10 @@ def effective_stmt(case):
 def oracle(ctx, case, res):
     """the statement of C46 on what the implementation produced"""
     mode, kind, pv = case['mode'], case['kind'], case['pv']
-    base = case['session'] if mode == 'Legacy' else case['profile']
+    base = dict(case['session'] if mode == 'Legacy' else case['profile'])
+    chosen = case.get('session_cl_chosen', True) if mode == 'Legacy' else case.get('profile_cl_chosen', True)
+    if not chosen:
+        base['cl'] = 6 if case.get('dbaas') else 10      # nobody chose a level: LOCAL_QUORUM on DBaaS clusters, else LOCAL_ONE
     st = effective_stmt(case)
     bad = []
     if isinstance(res, tuple):
@@ -130,6 +190,13 @@ def oracle(ctx, case, res):
         got_spec = res['spec'][0] if res['spec'] else None
         if got_spec != exp_spec:
             bad.append(('speculative_execution_policy', exp_spec, got_spec))
+        # the policy in effect must really be used: its timer is armed at creation unless the client timeout comes first
+        delay = case.get('spec_delay', 0.05)
+        if exp_spec is not None and (res['timeout'] is None or res['timeout'] > delay):
+            if res['timer'] is None or res['timer'][0] != 'spec' or res['timer'][1] != delay:
+                bad.append(('speculative_execution_policy.timer', ('spec', delay), res['timer']))
+        elif exp_spec is None and res['timer'] is not None and res['timer'][0] == 'spec':
+            bad.append(('speculative_execution_policy.timer', 'no speculative timer', res['timer']))
         w = res.get('wire')
         if w is not None:
             if 'error' in w:
@@ -169,7 +236,7 @@ def run(ctx):
     ctx.exhaustive = True
     ctx.rule = ('exhaustive: 2^6 set/unset combinations of statement options (consistency, serial consistency, retry policy, fetch size, keyspace, '
                 'idempotence) x timeout argument set/unset x {simple, bound, batch} x {legacy, profiles} x protocol versions %r; 2^4 x 2^4 '
-                'prepared-vs-bound inheritance lattice x both binding paths; plus random option values (None timeouts/fetch sizes, '
+                'prepared-vs-bound inheritance lattice x both binding paths; {ordinary, DBaaS cluster} x profile level chosen/not x session level chosen/not x profile added later; configuration histories on a real Cluster (7 constructor shapes x every sequence of <= 2/3 later legacy assignments / add_execution_profile); the timer armed at creation (speculative vs timeout); plus random option values (None timeouts/fetch sizes, '
                 'serial levels on profile/session, profile by name/object, uncommitted config mode); non-trivial = at least one statement '
                 'option set' % (pvs,))
     cases, meta = [], []
@@ -178,7 +245,8 @@ def run(ctx):
         st = effective_stmt(case)
         nset = sum(1 for k in ('cl', 'serial', 'retry') if st[k] is not None) + (st['fetch'] != 'unset')
         ctx.case([case['mode'], case['kind'], case['stmt'], case['prepared'], case['timeout'], case['pv'], case['paging'], case['bind_via_session'],
-                  case['profile'], case['session'], case['meta_keyspace']], nontrivial=nset > 0,
+                  case['profile'], case['session'], case['meta_keyspace'], case.get('dbaas'), case.get('profile_cl_chosen'),
+                  case.get('session_cl_chosen'), case.get('added_later')], nontrivial=nset > 0 or bool(case.get('dbaas')),
                  sample={'mode': case['mode'], 'kind': case['kind'], 'pv': case['pv'], 'statement': st, 'timeout_arg': case['timeout'],
                          'created': res if isinstance(res, tuple) else {k: v for k, v in res.items()}})
         ctx.count('mode', case['mode'])
@@ -186,9 +254,31 @@ def run(ctx):
         ctx.count('pv', case['pv'])
         ctx.count('statement_options_set', nset)
         ctx.count('source', 'lattice' if case['lattice'] else 'random')
+        ctx.count('cluster', 'dbaas' if case.get('dbaas') else 'ordinary')
         oracle(ctx, case, res)
         cases.append(P.g_case(case, res))
         meta.append((case, res))
+    # configuration histories (the mode is derived by the driver, not set by the harness)
+    hcases, hmeta = [], []
+    for hist in histories(ctx):
+        res = P.run_history(hist)
+        ctx.case(['history', hist['ctor'], hist['ops']], nontrivial=bool(hist['ops']),
+                 sample={'Cluster': hist['ctor'], 'then': hist['ops'], 'trace': res['trace'], 'in_effect': res['fields']})
+        ctx.count('source', 'config-history')
+        history_oracle(ctx, hist, res)
+        if res['ctor'] == 'ok':
+            hcases.append(P.g_history(hist, res))
+        else:
+            hcases.append('match cfg_step CLegacy UseProfiles with None => true | Some _ => false end')
+        hmeta.append((hist, res))
+    try:
+        badh = ctx.coq_filter(['Options'], '(fun b : bool => b)', hcases, shard=400)
+        for i in badh[:5]:
+            hist, res = hmeta[i]
+            ctx.disagreement('model-vs-impl.config-history', 'configuration mode differs from Model/Options.v cfg_trace: Cluster(%s) then %r -> %r' % (
+                ', '.join(hist['ctor']), hist['ops'], res['trace']), case={'history': hist}, actual=res['trace'])
+    except RuntimeError as e:
+        ctx.proof_broken.append(('correspondence:Options.cfg', str(e)[-600:]))
     try:
         bad = ctx.coq_filter(['Options'], '(fun b : bool => b)', cases, shard=400)
         for i in bad[:10]:
@@ -203,6 +293,17 @@ def run(ctx):
 
 def replay(ctx, rp):
     case = rp.get('case')
+    if case and 'history' in case:
+        hist = case['history']
+        res = P.run_history(hist)
+        print('replay Cluster(%s) then %r -> trace %r, in effect %r' % (', '.join(hist['ctor']), hist['ops'], res['trace'], res['fields']))
+        n0 = len(ctx.violations)
+        history_oracle(ctx, hist, res)
+        bad = len(ctx.violations) > n0
+        for f in ctx.violations[n0:]:
+            print('  ' + f.what)
+        print(('VIOLATION property=C46 replay=%s' % ctx.replay_path) if bad else 'not reproduced')
+        return 1 if bad else 0
     if not case or 'mode' not in case:
         print('nothing to replay: %s' % rp.get('theorem'))
         return 1
